@@ -114,18 +114,11 @@ Proof. apply json_names_valid. Qed.
 
 (* the name a viewer shows: a JSON parser decoding json_escape s (only the two-byte escapes
    backslash-backslash and backslash-quote occur) returns [shown s] *)
-Fixpoint unesc (pending : bool) (s : list N) : list N :=
-  match s with
-  | [] => []
-  | c :: r => if pending then c :: unesc false r
-              else if c =? 92 then unesc true r else c :: unesc false r
-  end.
 Fixpoint unesc_end (pending : bool) (s : list N) : bool :=
   match s with
   | [] => pending
   | c :: r => if pending then unesc_end false r else unesc_end (c =? 92) r
   end.
-Definition unescape (s : list N) : list N := unesc false s.
 
 Lemma unesc_app : forall a b p, unesc p (a ++ b) = unesc p a ++ unesc (unesc_end p a) b.
 Proof.
@@ -213,4 +206,54 @@ Proof.
   - rewrite unesc_app. change (unesc false [40]) with [40]. change (unesc_end false [40]) with false.
     rewrite unesc_app, B1, B2. reflexivity.
   - simpl app. rewrite app_nil_r. exact B1.
+Qed.
+
+(* ---- the argument text with truncation (a piece that does not fit is dropped whole) ---- *)
+Definition unit_ok (piece : list N) : Prop := lex_run S_body piece = Some S_body.
+Lemma put_ok : forall st piece, unit_ok (fst st) -> unit_ok piece -> unit_ok (fst (put st piece)).
+Proof.
+  intros [out room] piece Ho Hp. unfold put. destruct (room <=? 1); [exact Ho|].
+  destruct (room <=? N.of_nat (length piece)); [exact Ho|]. unfold unit_ok in *. simpl fst in *.
+  rewrite lex_run_app, Ho. exact Hp.
+Qed.
+Lemma put_all_ok : forall pieces st, unit_ok (fst st) -> Forall unit_ok pieces -> unit_ok (fst (put_all st pieces)).
+Proof.
+  induction pieces as [|p r IH]; intros st Ho Hp; [exact Ho|]. inversion Hp; subst. simpl. apply IH; [apply put_ok; assumption|assumption].
+Qed.
+Lemma arg_pieces_ok : forall a, Forall unit_ok (arg_pieces a).
+Proof.
+  intros [raw|c]; simpl.
+  - destruct (is_null_str raw); [repeat constructor|]. constructor; [reflexivity|].
+    apply Forall_app. split; [|repeat constructor].
+    apply Forall_forall. intros x Hx. apply in_map_iff in Hx. destruct Hx as [c [<- _]]. apply esc_char_body.
+  - constructor; [reflexivity|]. constructor; [apply esc_char_body|]. repeat constructor.
+Qed.
+Lemma args_loop_ok : forall args first st, unit_ok (fst st) -> unit_ok (fst (args_loop first args st)).
+Proof.
+  induction args as [|a r IH]; intros first st Ho; [exact Ho|]. simpl.
+  assert (H1 : unit_ok (fst (if first then st else put st [44; 32]))) by (destruct first; [exact Ho|apply put_ok; [exact Ho|reflexivity]]).
+  pose proof (put_all_ok (arg_pieces a) _ H1 (arg_pieces_ok a)) as H2.
+  destruct (snd (put_all (if first then st else put st [44; 32]) (arg_pieces a)) <=? 2); [exact H2|apply IH, H2].
+Qed.
+Lemma args_text_lex : forall entry args, lex_run S_body (args_text entry args) = Some S_body.
+Proof.
+  intros entry args. unfold args_text. destruct entry.
+  - apply put_ok; [|reflexivity]. apply args_loop_ok. apply put_ok; reflexivity.
+  - destruct args as [|a r]; [reflexivity|]. apply put_all_ok; [reflexivity|apply arg_pieces_ok].
+Qed.
+(* whatever the arguments are and wherever the buffer ends, the text is the inside of one JSON string:
+   in particular it never ends in half an escape sequence *)
+Theorem json_args_text_valid : forall entry args, json_string_ok (quoted (args_text entry args)) = true.
+Proof.
+  intros entry args. unfold quoted, json_string_ok. rewrite lex_run_app, args_text_lex. reflexivity.
+Qed.
+(* it never outgrows the buffer *)
+Lemma put_room : forall st piece, N.of_nat (length (fst st)) + snd st <= SPEC_BUF -> 1 <= snd st ->
+  N.of_nat (length (fst (put st piece))) + snd (put st piece) <= SPEC_BUF /\ 1 <= snd (put st piece).
+Proof.
+  intros [out room] piece H H1. unfold put. simpl in *.
+  destruct (room <=? 1) eqn:E1; [simpl; split; assumption|].
+  destruct (room <=? N.of_nat (length piece)) eqn:E2; simpl.
+  - apply N.leb_gt in E1. split; lia.
+  - apply N.leb_gt in E1. apply N.leb_gt in E2. rewrite app_length, Nat2N.inj_add. split; lia.
 Qed.
